@@ -11,8 +11,9 @@ def size(r):
 
 
 def symbols(r):
+    """The characters that occur in symbols (a multi-character symbol s denotes the language {s})."""
     if r[0] == "s":
-        return {r[1]}
+        return set(r[1])
     return set().union(*[symbols(x) for x in r[1:] if isinstance(x, list)]) if len(r) > 1 else set()
 
 
@@ -61,7 +62,10 @@ def norm(r):
     if t == "1":
         return ONE
     if t == "s":
-        return ("s", r[1])
+        out = ONE
+        for ch in reversed(r[1]):
+            out = _cat(("s", ch), out)
+        return out
     if t == "*":
         return _star(norm(r[1]))
     if t == "+":
@@ -129,6 +133,16 @@ def to_dfa(r, sigma):
 
 # ---- second implementation: Glushkov position automaton ----
 
+def _expand(s):
+    """multi-character symbol -> concatenation tree of its characters"""
+    if len(s) == 0:
+        return ["1"]
+    t = ["s", s[-1]]
+    for ch in reversed(s[:-1]):
+        t = [".", ["s", ch], t]
+    return t
+
+
 def glushkov(r):
     """Returns an NFA spec without eps-moves whose states are positions."""
     pos = []
@@ -141,6 +155,8 @@ def glushkov(r):
         if t == "1":
             return True, set(), set()
         if t == "s":
+            if len(x[1]) != 1:
+                return go(_expand(x[1]))
             pos.append(x[1])
             p = len(pos)
             fol[p] = set()
